@@ -405,6 +405,10 @@ pub fn run_hs(cfg: &HsCfg, sc: &mut Sc) -> HsTrace {
                     if o.err() != Some("State(NotTurnToRead)") {
                         sc.viol("C11", format!("{name}: read on own turn at message {k} gave {o:?}"));
                     }
+                    if cfg.query_each_step {
+                        // the rejected calls must not have moved the indicators
+                        query_check(sc, k, k, &s_known_i, &s_known_r);
+                    }
                 },
                 Fault::WriteCapShort(d) => {
                     sc.count("fault.write_cap_short");
@@ -480,6 +484,9 @@ pub fn run_hs(cfg: &HsCfg, sc: &mut Sc) -> HsTrace {
             if !faults.is_empty() {
                 sc.viol("C07", format!("{name}: write of message {k} fails after an earlier failed call: {o:?}"));
             }
+            if cfg.faults.iter().any(|(i, f)| *i <= k && *f == Fault::OutOfTurn) {
+                sc.viol("C11", format!("{name}: a rejected out-of-phase call had an effect: the genuine write of message {k} now fails: {o:?}"));
+            }
             return tr;
         };
         if msg.len() != exact {
@@ -521,6 +528,14 @@ pub fn run_hs(cfg: &HsCfg, sc: &mut Sc) -> HsTrace {
                         // the dedicated scenario `run_tamper_continue`. Stop here.
                         sc.count("tamper.accepted_clear");
                         return tr;
+                    }
+                    // C19: nothing decrypted from the rejected message may be in the caller's buffer: neither
+                    // the payload nor the sender's static key when the message carries it encrypted
+                    if fields.iter().any(|f| matches!(f, Field::S { enc: true })) {
+                        let spub = if k % 2 == 0 { &keys.pub_i } else { &keys.pub_r };
+                        if sc.ex.last_buf.windows(spub.len()).any(|w| w == spub.as_slice()) {
+                            sc.viol("C19", format!("{name}: rejected message {k} left the sender's decrypted static key in the payload buffer"));
+                        }
                     }
                     if alt.len() >= 16 && plen >= 16 {
                         // C19: rejected => plaintext payload must not be in the buffer
@@ -586,6 +601,9 @@ pub fn run_hs(cfg: &HsCfg, sc: &mut Sc) -> HsTrace {
                 sc.viol("C02", format!("{name}: honest read of message {k} failed: {o:?}"));
                 if !faults.is_empty() {
                     sc.viol("C07", format!("{name}: genuine message {k} rejected after an earlier failed call: {o:?}"));
+                }
+                if cfg.faults.iter().any(|(i, f)| *i <= k && *f == Fault::OutOfTurn) {
+                    sc.viol("C11", format!("{name}: a rejected out-of-phase call had an effect: the genuine message {k} is now rejected: {o:?}"));
                 }
                 return tr;
             },
